@@ -4,16 +4,17 @@ import (
 	"fmt"
 	"math/rand"
 	"reflect"
+	"strconv"
 )
 
 type M = map[string]any
 
-func str(s string) M   { return M{"t": "str", "v": s} }
-func num(l string) M   { return M{"t": "num", "int": true, "lit": l} }
-func asM(x any) M      { m, _ := x.(map[string]any); return m }
+func str(s string) M     { return M{"t": "str", "v": s} }
+func num(l string) M     { return M{"t": "num", "int": true, "lit": l} }
+func asM(x any) M        { m, _ := x.(map[string]any); return m }
 func asList(x any) []any { l, _ := x.([]any); return l }
-func b(x any) bool     { v, _ := x.(bool); return v }
-func s(x any) string   { v, _ := x.(string); return v }
+func b(x any) bool       { v, _ := x.(bool); return v }
+func s(x any) string     { v, _ := x.(string); return v }
 
 // site is a node of the value tree that is visible on the wire, numbered in encoding order.
 type corruptor struct {
@@ -98,7 +99,28 @@ func (c *corruptor) enc(tr M) M {
 		}
 		if c.class == "nonmember" && c.hit() {
 			c.done = "non-member value of " + s(tr["type"])
-			return num("987654")
+			// a far value, or one next to / between the declared members
+			isMember := map[int]bool{}
+			lo, hi := 0, 0
+			for _, m := range asList(tr["members"]) {
+				if v, err := strconv.Atoi(s(m)); err == nil {
+					isMember[v] = true
+					if v < lo {
+						lo = v
+					}
+					if v > hi {
+						hi = v
+					}
+				}
+			}
+			cands := []int{987654, hi + 1}
+			for v := lo; v <= hi; v++ {
+				if !isMember[v] {
+					cands = append(cands, v) // the smallest gap
+					break
+				}
+			}
+			return num(strconv.Itoa(cands[c.rng.Intn(len(cands))]))
 		}
 		return num(s(tr["lit"]))
 	case "bytes":
